@@ -133,13 +133,14 @@ CHECKS = {
     "C16": ("TLA+ spec CelThreads (threads = RECORDED per-line read/write programs over process-wide cells; Step(t) atomic per line) "
             "checked by TLC for NoInterference over ALL interleavings; the TLC witness and every single-preemption schedule at the recorded "
             "shared accesses replayed into real threads by a deterministic line-level scheduler, results compared with each job alone",
-            "Each job (own Environment, program, bindings; both runners; macro / has / filter / string programs) is evaluated alone under a "
-            "tracer that records, per executed library line, the module- and class-namespace names (and directly bound containers / library "
-            "objects) it reads and writes; TLC explores every interleaving of two recorded programs; a settrace scheduler then forces the "
+            "Each thread body (own Environment, compile, program, bindings, one evaluation -- the whole lifecycle, and evaluate() alone; pairs of the "
+            "same and of different runner classes; macro / has / filter / string / matches programs) is run alone, after the other job, under a "
+            "tracer that records per executed library line the module- and class-namespace names (and directly bound containers / library "
+            "objects) it reads and writes; TLC explores every interleaving of the two recorded programs; a settrace scheduler then forces the "
             "witness and the single-preemption schedules (all lines touching shared cells +-1 and a stride sample of all lines; two "
-            "preemptions and a free-running 4-thread stress in the thorough tier) and each thread's result must equal its result alone.",
-            "Trusted: TLC, sys.settrace line granularity (interleavings inside one Python line and inside C code are reached only by the "
-            "stress run). Environment / program creation happens before the scheduled region.", "5/C16"),
+            "preemptions, all job pairs and a free-running 4-thread stress in the thorough tier) and each thread's result must equal its result alone.",
+            "Trusted: TLC, sys.settrace line granularity (interleavings inside one Python line and inside C code -- lark, re2 -- are reached only by "
+            "the stress run). With nothing shared the recorded model has one state: it grows exactly when a change introduces shared state.", "5/C16"),
     "C17": ("TLA+ spec C7nLib (set predicates, normalize, a recursive glob matcher, IPv4 containment on masked octets, version order, tag "
             "lookup, message:action@date split, ARN split, the filter-context state machine) checked by TLC; every case called directly "
             "and through CEL with FUNCTIONS bound; every context history replayed through C7N_Interpreted_Runner",
